@@ -57,9 +57,16 @@ pub struct GenCfg {
     /// clash perturbations may also rename things (off: only duplicated / re-declared functions and
     /// members, for checks whose expectations come from the reference model)
     pub clash_renames: bool,
+    /// with `clash_renames` off: non-base fields may still be renamed (the method surface does not
+    /// depend on their names)
+    pub clash_field_renames: bool,
     /// the first base may sit behind a gap even when it carries the vftable pointer the derived type
     /// shares (off: such a base is always at offset 0, which the L2/L3 oracles assume)
     pub vft_base_anywhere: bool,
+    /// n > 0: one program in n gives two struct types of different modules the same short name, when
+    /// no module can see both (short names are otherwise unique in a program). `Known::name` is stale
+    /// for such programs: only for checks that work from the program itself.
+    pub alias_types: u64,
 }
 
 impl GenCfg {
@@ -96,7 +103,9 @@ impl GenCfg {
             shared_names: true,
             clashes: 0,
             clash_renames: true,
+            clash_field_renames: false,
             vft_base_anywhere: false,
+            alias_types: 0,
         }
     }
     pub fn layout_only(w: u64) -> GenCfg {
@@ -148,6 +157,9 @@ pub struct Gen<'t, 'd> {
     pub repairs: BTreeMap<String, u64>,
 }
 
+/// whole doc lines with Markdown meaning (C17 compares them verbatim; its multiset oracle knows this set)
+pub const MD_DOC_LINES: &[&str] = &["```", " ```", " ```cpp", " ~~~", " # Heading", " - item", "     indented code", " [link](http://x)", " <b>html</b>", " | a | b |", " > quote", " 1. one"];
+
 const SCALARS: &[&str] = &["u8", "u16", "u32", "u64", "i8", "i16", "i32", "i64", "bool", "f32", "f64", "u128", "i128"];
 const INT_SCALARS: &[&str] = &["u8", "u16", "u32", "u64", "i8", "i16", "i32", "i64", "bool"];
 pub const CCS: &[&str] = &["C", "cdecl", "stdcall", "fastcall", "thiscall", "vectorcall", "system"];
@@ -188,6 +200,9 @@ impl<'t, 'd> Gen<'t, 'd> {
             // empty lines anywhere, also last (regression for fixed finding F26)
             if self.t.chance(1, 5) {
                 v.push(String::new());
+            } else if self.t.chance(1, 12) {
+                // lines that mean something to Markdown / rustdoc: they are to be carried over verbatim too
+                v.push(self.t.pick(MD_DOC_LINES).to_string());
             } else {
                 // now and then with characters that need care in a string literal / comment
                 let extra = if self.t.chance(1, 6) { *self.t.pick(&[" \"quoted\"", " back\\slash", " */ end", " {braces}", " 'tick", " tab\there", " #[attr]", " üñí"]) } else { "" };
@@ -1064,10 +1079,19 @@ impl<'t, 'd> Gen<'t, 'd> {
                 g.counter += 1;
                 if rust {
                     let k = 1 + g.t.below(2);
-                    (0..k)
+                    let mut text = (0..k)
                         .map(|j| format!("pub const PV_MARK_{}_{}_{}: u32 = {};", what, g.counter, j, j))
                         .collect::<Vec<_>>()
-                        .join("\n")
+                        .join("\n");
+                    // comments at the edges of the text: what follows or precedes must survive them
+                    match g.t.below(8) {
+                        0 => text.push_str(" // keep in sync with the header"),
+                        1 => text.push_str("\n// trailing line comment"),
+                        2 => text = format!("// leading line comment\n{text}"),
+                        3 => text = format!("/* leading block comment */ {text} /* trailing block comment */"),
+                        _ => {}
+                    }
+                    text
                 } else {
                     format!("#include <not_rust_{}.h> PV_OTHER_{}", g.counter, g.counter)
                 }
@@ -1116,6 +1140,12 @@ impl<'t, 'd> Gen<'t, 'd> {
                 self.gen_backends(m);
             }
         }
+        if self.cfg.alias_types > 0 && self.t.chance(1, self.cfg.alias_types) {
+            let n = 1 + self.t.below(2);
+            for _ in 0..n {
+                self.alias_type_names();
+            }
+        }
         if self.cfg.clashes > 0 && self.t.chance(1, self.cfg.clashes) {
             let n = 1 + self.t.below(2);
             for _ in 0..n {
@@ -1125,16 +1155,159 @@ impl<'t, 'd> Gen<'t, 'd> {
         (self.prog, self.known, self.repairs)
     }
 
+    // ------------------------------------------------------------ same short name in two modules
+
+    /// module `m` can name the item `name` of module `d` (defines it, imports the module, or imports it by name)
+    fn sees(&self, m: usize, d: usize, name: &str) -> bool {
+        if m == d {
+            return true;
+        }
+        let modp = &self.prog.mods[d].path;
+        let mut typep = modp.clone();
+        typep.push(name.to_string());
+        self.prog.mods[m].uses.iter().any(|u| u == modp || *u == typep)
+    }
+
+    fn alias_type_names(&mut self) {
+        let structs: Vec<(usize, String)> = self
+            .prog
+            .mods
+            .iter()
+            .enumerate()
+            .flat_map(|(mi, m)| m.types().map(move |t| (mi, t.name.clone())))
+            .collect();
+        if structs.len() < 2 {
+            return;
+        }
+        // half of the time: two types that are (transitive) bases of one derived type, so that the
+        // conversions and re-exposed functions of that type have to tell them apart
+        let mut pair: Option<((usize, String), (usize, String))> = None;
+        let unique_names = structs.iter().all(|(_, n)| structs.iter().filter(|(_, n2)| n2 == n).count() == 1);
+        if unique_names && self.t.chance(1, 2) {
+            let find = |n: &str| structs.iter().find(|(_, x)| x == n).cloned();
+            let mut cands: Vec<((usize, String), (usize, String))> = vec![];
+            for (mi, m) in self.prog.mods.iter().enumerate() {
+                for td in m.types() {
+                    // transitive bases of td
+                    let mut bases: Vec<(usize, String)> = vec![];
+                    let mut todo: Vec<(usize, String)> = vec![(mi, td.name.clone())];
+                    let mut guard = 0;
+                    while let Some((cm, cn)) = todo.pop() {
+                        guard += 1;
+                        if guard > 64 {
+                            break;
+                        }
+                        let Some(ct) = self.prog.mods[cm].types().find(|t| t.name == cn) else { continue };
+                        for f in ct.fields.iter().filter(|f| f.base) {
+                            if let Ty::Named(bn) = &f.ty {
+                                if let Some(b) = find(bn) {
+                                    bases.push(b.clone());
+                                    todo.push(b);
+                                }
+                            }
+                        }
+                    }
+                    for i in 0..bases.len() {
+                        for j in i + 1..bases.len() {
+                            if bases[i].0 != bases[j].0 && bases[i].1 != bases[j].1 {
+                                cands.push((bases[i].clone(), bases[j].clone()));
+                            }
+                        }
+                    }
+                }
+            }
+            if !cands.is_empty() {
+                pair = Some(cands[self.t.below(cands.len() as u64) as usize].clone());
+            }
+        }
+        let ((ma, ta), (mb, tb)) = match pair {
+            Some(p) => p,
+            None => {
+                let a = structs[self.t.below(structs.len() as u64) as usize].clone();
+                let others: Vec<&(usize, String)> = structs.iter().filter(|(m, n)| *m != a.0 && *n != a.1).collect();
+                if others.is_empty() {
+                    return;
+                }
+                let b = others[self.t.below(others.len() as u64) as usize].clone();
+                (a, b)
+            }
+        };
+        // nobody may be able to see both, and the new name must be free in B (also its generated table name)
+        let nm = self.prog.mods.len();
+        if (0..nm).any(|m| self.sees(m, ma, &ta) && self.sees(m, mb, &tb)) {
+            *self.repairs.entry("alias-visible-to-one-module".into()).or_default() += 1;
+            return;
+        }
+        if structs.iter().any(|(m, n)| *m == mb && (*n == ta || *n == format!("{ta}Vftable"))) {
+            return;
+        }
+        *self.repairs.entry("alias-applied".into()).or_default() += 1;
+        let rename_ty = |t: &mut Ty| {
+            fn go(t: &mut Ty, from: &str, to: &str) {
+                match t {
+                    Ty::Named(n) => {
+                        if n == from {
+                            *n = to.to_string();
+                        }
+                    }
+                    Ty::CPtr(e) | Ty::MPtr(e) | Ty::Arr(e, _) => go(e, from, to),
+                    Ty::Unk(_) => {}
+                }
+            }
+            go(t, &tb, &ta)
+        };
+        let rename_fn = |f: &mut Func| {
+            for a in f.args.iter_mut() {
+                if let Arg::Named(_, t) = a {
+                    rename_ty(t);
+                }
+            }
+            if let Some(r) = &mut f.ret {
+                rename_ty(r);
+            }
+        };
+        let bpath = self.prog.mods[mb].path.clone();
+        for m in self.prog.mods.iter_mut() {
+            for u in m.uses.iter_mut() {
+                if u.len() == bpath.len() + 1 && u[..bpath.len()] == bpath[..] && u.last() == Some(&tb) {
+                    *u.last_mut().unwrap() = ta.clone();
+                }
+            }
+            for it in m.items.iter_mut() {
+                if let Item::Type(td) = it {
+                    if td.name == tb {
+                        td.name = ta.clone();
+                    }
+                    for f in td.fields.iter_mut() {
+                        rename_ty(&mut f.ty);
+                    }
+                    if let Some(v) = &mut td.vft {
+                        v.funcs.iter_mut().for_each(rename_fn);
+                    }
+                }
+            }
+            for im in m.impls.iter_mut() {
+                if im.ty == tb {
+                    im.ty = ta.clone();
+                }
+                im.funcs.iter_mut().for_each(rename_fn);
+            }
+            for ev in m.ext_vals.iter_mut() {
+                rename_ty(&mut ev.ty);
+            }
+        }
+    }
+
     // ------------------------------------------------------------ name clashes
 
     fn clash_perturb(&mut self) {
-        let kind = self.t.below(if self.cfg.clash_renames { 8 } else { 4 });
+        let kind = self.t.below(if self.cfg.clash_renames { 8 } else if self.cfg.clash_field_renames { 6 } else { 4 });
         *self.repairs.entry(format!("clash-kind-{kind}")).or_default() += 1;
         match kind {
             0 => self.clash_dup_impl_fn(),
             1 | 2 => self.clash_redeclare_inherited(),
             3 => self.clash_duplicate_member(),
-            _ => self.clash_rename(),
+            _ => self.clash_rename(!self.cfg.clash_renames),
         }
     }
 
@@ -1279,7 +1452,7 @@ impl<'t, 'd> Gen<'t, 'd> {
 
     /// give a field, impl function, virtual function, enum case, parameter or extern value a name
     /// that is already in use somewhere in the program or that the backend generates itself
-    fn clash_rename(&mut self) {
+    fn clash_rename(&mut self, fields_only: bool) {
         let mut names: Vec<String> = ["vftable", "get", "as_ref", "as_mut", "clone", "default", "fmt", "_vfunc_0", "_vfunc_1", "_field_0", "_field_4", "_field_8", "this", "self_", "f", "ptr", "new", "drop", "transmute", "std", "core", "crate_"]
             .iter()
             .map(|s| s.to_string())
@@ -1350,6 +1523,9 @@ impl<'t, 'd> Gen<'t, 'd> {
                 names.push(format!("get_{}", ev.name));
                 sites.push(Site::ExtVal(mi, k));
             }
+        }
+        if fields_only {
+            sites.retain(|s| matches!(s, Site::Field(..)));
         }
         if sites.is_empty() {
             return;
